@@ -554,9 +554,13 @@ func c09(r *rep.Run) {
 					}
 					if err != nil {
 						atomic.AddInt64(&rejected, 1)
-						if ev == 0 {
+						if ev == 0 && nodes <= 32767 {
 							r.Violate("rejected-below-limit", "stack"+o.String(), sprintf("program of %d nodes (<= 32767) with %d pending operands is rejected under %s: %v", nodes, depth, o, err), d)
 						}
+						continue
+					}
+					if nodes > 32767 {
+						r.Violate("accepted-above-limit", "stack"+o.String(), sprintf("program of %d nodes (> 32767) with %d pending operands is accepted by Compile under %s", nodes, depth, o), d)
 						continue
 					}
 					for mode := 0; mode < 2; mode++ {
@@ -578,6 +582,79 @@ func c09(r *rep.Run) {
 		})
 		r.Cov["stack_depth_members"] = len(depths)
 		r.Cov["stack_depth_executions"] = stackRuns
+	}
+
+	// ---- (4b) one caller context across programs of different stack classes ----
+	// A caller may evaluate any number of programs with one Ctx; the operand
+	// stack each evaluation gets must fit THAT program whatever ran before on
+	// the same context. Every ordered pair (thorough: triple) of stack depths
+	// around the allocation classes x {Eval, TryEval} per step.
+	{
+		ds := []int{2, 3, 7, 8, 9, 10, 15, 16, 17, 18, 31, 33, 127, 129, 300}
+		type sp struct {
+			e      *eval.Expr
+			leaves int
+			depth  int
+			o      drive.Opt
+		}
+		var progs []sp
+		h := hs[0]
+		for _, b := range []int{0, 15} {
+			for _, d := range ds {
+				src, leaves, _ := c9Stack(d)
+				o := drive.FromBits(b)
+				e, err := h.Compile(h.NewConfig([]term.VarDecl{{Name: "x", Ty: I}}, o), src, 0)
+				if err != nil {
+					r.Violate("rejected-below-limit", "ctxseq"+o.String(), sprintf("program with %d pending operands is rejected under %s: %v", d, o, err), map[string]interface{}{"source": src})
+					continue
+				}
+				progs = append(progs, sp{e, leaves, d, o})
+			}
+		}
+		var seqRuns int64
+		steps := 2
+		if r.Thorough() {
+			steps = 3
+		}
+		total := 1
+		for s := 0; s < steps; s++ {
+			total *= len(progs) * 2
+		}
+		r.ParallelFor(total, func(w, i int) {
+			if i%4096 == 0 {
+				r.Note(w, sprintf("context sequence %d", i))
+			}
+			ctx := &eval.Ctx{VariableFetcher: c9fetch{int64(1)}}
+			var hist []string
+			for s, k := 0, i; s < steps; s++ {
+				c := k % (len(progs) * 2)
+				k /= len(progs) * 2
+				p, mode := progs[c/2], c%2
+				hist = append(hist, sprintf("%s(depth %d, %s)", []string{"Eval", "TryEval"}[mode], p.depth, p.o))
+				var v eval.Value
+				var err error
+				pn, site := drive.Fence(func() {
+					if mode == 0 {
+						v, err = p.e.Eval(ctx)
+					} else {
+						v, err = p.e.TryEval(ctx)
+					}
+				})
+				atomic.AddInt64(&seqRuns, 1)
+				d := map[string]interface{}{"calls_on_one_context": strings.Join(hist, " ; ")}
+				if pn != nil {
+					r.Violate("stack-panic", "ctxseq"+site, sprintf("evaluations sharing one Ctx: %s panics: %v (at %s)", strings.Join(hist, " ; "), pn, site), d)
+					break
+				}
+				if err != nil || v != int64(p.leaves) {
+					r.Violate("wrong-value", "ctxseq", sprintf("evaluations sharing one Ctx: %s returns %v, %v instead of %d", strings.Join(hist, " ; "), v, err, p.leaves), d)
+					break
+				}
+			}
+		})
+		evals += seqRuns
+		r.Cov["one_context_sequences"] = total
+		r.Cov["one_context_sequence_executions"] = seqRuns
 	}
 
 	// ---- (3) stack contexts ----
